@@ -3,7 +3,7 @@
 //! at the client boundary; an offline checker judges the history.
 
 use crate::gen::{self, GenOpts, Profile};
-use crate::orch::{guard, CaseOut, Ctx};
+use crate::orch::{CaseOut, Ctx};
 use crate::rng::{hash_str, mix, Rng};
 use refmodel::output::check_output;
 use refmodel::Inst;
@@ -379,6 +379,127 @@ fn judge_event(e: &Event, valid: &[ValidInstance], out: &mut CaseOut, phase: &st
     }
 }
 
+/// make one dead-head connection longer than a one-day planning horizon (the loader clamps it to
+/// the horizon of the instance it is loaded for)
+fn force_long_dead_head(x: &mut Value, rng: &mut Rng) {
+    let n = x["deadHeadTrips"]["indices"].as_array().map(|a| a.len()).unwrap_or(0);
+    if n < 2 {
+        return;
+    }
+    for _ in 0..rng.usize(1, 3) {
+        let i = rng.usize(0, n - 1);
+        let k = (i + rng.usize(1, n - 1)) % n;
+        x["deadHeadTrips"]["durations"][i][k] = json!(rng.range(25, 40) * 3600);
+    }
+}
+
+/// the same instance (all ids kept, so that any state keyed on ids or on a part of the request
+/// would be hit) with other departure ids and ONE section changed in value
+fn sibling(base: &Value, base_tag: &str, new_tag: &str, rng: &mut Rng) -> Value {
+    let mut x = base.clone();
+    match rng.below(6) {
+        0 => {
+            // smaller vehicles: more vehicles needed
+            if let Some(ts) = x["vehicleTypes"].as_array_mut() {
+                for t in ts.iter_mut() {
+                    let c = (t["capacity"].as_u64().unwrap_or(100) / 2).max(1);
+                    let s = t["seats"].as_u64().unwrap_or(50).min(c).max(1);
+                    t["capacity"] = json!(c);
+                    t["seats"] = json!(s);
+                }
+            }
+        }
+        1 => {
+            // other cost coefficients and no shunting times
+            x["parameters"]["costs"]["serviceTrip"] = json!(rng.range(1, 90));
+            x["parameters"]["costs"]["deadHeadTrip"] = json!(rng.range(1, 500));
+            x["parameters"]["costs"]["idle"] = json!(rng.range(0, 40));
+            x["parameters"]["costs"]["staff"] = json!(rng.range(0, 150));
+            x["parameters"]["shunting"]["minimalDuration"] = json!(0);
+            x["parameters"]["shunting"]["deadHeadTripDuration"] = json!(0);
+        }
+        2 => {
+            // scarce depots
+            if let Some(ds) = x["depots"].as_array_mut() {
+                for d in ds.iter_mut() {
+                    d["capacity"] = json!(rng.range(0, 1));
+                }
+            }
+        }
+        3 => {
+            // other distances on routes and dead-heads
+            if let Some(rs) = x["routes"].as_array_mut() {
+                for r in rs.iter_mut() {
+                    if let Some(segs) = r["segments"].as_array_mut() {
+                        for sg in segs.iter_mut() {
+                            sg["distance"] = json!(rng.range(1, 200) * 1000);
+                            sg.as_object_mut().unwrap().remove("maximalFormationCount");
+                        }
+                    }
+                }
+            }
+        }
+        4 => {
+            // other maintenance allowance and track counts
+            x["parameters"]["maintenance"] = json!({ "maximalDistance": rng.range(0, 300) * 1000 });
+            if let Some(ms) = x["maintenanceSlots"].as_array_mut() {
+                for m in ms.iter_mut() {
+                    m["trackCount"] = json!(rng.range(1, 3));
+                }
+            }
+        }
+        _ => {} // only the horizon changes (below)
+    }
+    if let Some(deps) = x["departures"].as_array_mut() {
+        let n = deps.len();
+        let shift_from = rng.usize(0, n.saturating_sub(1));
+        for (k, d) in deps.iter_mut().enumerate() {
+            let id = d["id"].as_str().unwrap_or("").replacen(base_tag, new_tag, 1);
+            d["id"] = json!(id);
+            if let Some(segs) = d["segments"].as_array_mut() {
+                for sg in segs.iter_mut() {
+                    let sid = sg["id"].as_str().unwrap_or("").replacen(base_tag, new_tag, 1);
+                    sg["id"] = json!(sid);
+                    if k >= shift_from {
+                        if let Ok(t) = refmodel::time::parse(sg["departure"].as_str().unwrap_or("")) {
+                            sg["departure"] = json!(refmodel::time::format(t + 86400));
+                        }
+                    }
+                }
+            }
+        }
+    }
+    x
+}
+
+/// solve the instance in a fresh child process; None = the pipeline cannot answer it at all,
+/// Some(clauses) = the oracle clauses that already fail in isolation
+fn dry_run(input: &Value, inst: &Inst) -> Option<BTreeSet<String>> {
+    let me = std::env::current_exe().ok()?;
+    let dir = me.parent()?.parent()?;
+    let stamp = format!("{}-{:x}", std::process::id(), hash_str(&input.to_string()));
+    let infile = dir.join(format!("dry-{}.in.json", stamp));
+    let outfile = dir.join(format!("dry-{}.out.json", stamp));
+    std::fs::write(&infile, serde_json::to_vec(input).ok()?).ok()?;
+    let status = Command::new(&me)
+        .arg("solve")
+        .arg(&infile)
+        .arg(&outfile)
+        .stdin(Stdio::null())
+        .stdout(Stdio::null())
+        .stderr(Stdio::null())
+        .status();
+    let answer: Option<Value> = std::fs::read(&outfile).ok().and_then(|b| serde_json::from_slice(&b).ok());
+    let _ = std::fs::remove_file(&infile);
+    let _ = std::fs::remove_file(&outfile);
+    if !status.map(|s| s.success()).unwrap_or(false) {
+        return None;
+    }
+    let answer = answer?;
+    let rep = check_output(inst, &answer);
+    Some(rep.findings.iter().map(|f| format!("{}:{}", f.prop, f.clause)).collect())
+}
+
 pub fn case(ctx: &Ctx, idx: u64) -> CaseOut {
     let mut out = CaseOut::default();
     crate::orch::announce_cpu_budget(900.0);
@@ -394,19 +515,35 @@ pub fn case(ctx: &Ctx, idx: u64) -> CaseOut {
         let mut opts = GenOpts::new(profile, if big { rng.usize(18, 30) } else { rng.usize(2, 8) });
         opts.force_slots = rng.chance(1, 2);
         let tag = format!("w{}c{}r{}", ctx.seed, idx, attempts);
-        let input = gen::generate(&mut rng, &opts, &tag);
+        let mut input = gen::generate(&mut rng, &opts, &tag);
+        if rng.chance(1, 3) {
+            force_long_dead_head(&mut input, &mut rng);
+            out.count("instances_with_dead_head_longer_than_a_day", 1);
+        }
         let inst = Inst::parse(&input).expect("parse");
-        // isolated dry run: an instance the pipeline cannot answer at all is C06's business
-        match guard(|| server::solve_instance(input.clone())) {
-            Err(_) => {
+        // isolated dry run (own process, so that no process-wide state of earlier solves can leak
+        // into it): an instance the pipeline cannot answer at all is C06's business
+        match dry_run(&input, &inst) {
+            None => {
                 out.count("instances_screened_out_by_dry_run", 1);
                 continue;
             }
-            Ok(ans) => {
-                let rep = check_output(&inst, &ans);
-                let dry: BTreeSet<String> = rep.findings.iter().map(|f| format!("{}:{}", f.prop, f.clause)).collect();
+            Some(dry) => {
                 if !dry.is_empty() {
                     out.count("instances_with_dry_run_findings", 1);
+                }
+                // a sibling: same locations, matrices, types, routes, depots, slots - other
+                // departure ids and a longer planning horizon (catches state keyed on a part of
+                // the request)
+                if rng.chance(2, 3) {
+                    let stag = format!("{}x", tag);
+                    let sib = sibling(&input, &tag, &stag, &mut rng);
+                    if let Ok(sinst) = Inst::parse(&sib) {
+                        if let Some(sdry) = dry_run(&sib, &sinst) {
+                            out.count("sibling_instances", 1);
+                            valid.push(ValidInstance { body: serde_json::to_vec(&sib).unwrap(), input: sib, inst: sinst, tag: stag, dry_run_clauses: sdry });
+                        }
+                    }
                 }
                 valid.push(ValidInstance { body: serde_json::to_vec(&input).unwrap(), input, inst, tag, dry_run_clauses: dry });
             }
